@@ -240,7 +240,7 @@ Section PortState.
         cbn [snd] in *; eexists; (split; [reflexivity|]); (split; [apply HF; [exact I|reflexivity]|]);
         (split; [exact HS|]); cbn [bp_port]; rewrite HT; split; [discriminate|reflexivity].
     - destruct (p_multiport_disable (bp_port b)).
-      + destruct (is_passive (p_state (bp_port b))) eqn:Epas.
+      + destruct (is_passive (p_state (bp_port b)) || is_faulty (p_state (bp_port b))) eqn:Epas.
         * apply keep_ok; [destruct (p_state (bp_port b)); discriminate|congruence].
         * unfold set_forced; cbn [fst snd]. eexists. split; [reflexivity|]. split; [apply force_ok; [exact I|reflexivity]|].
           split; [split; reflexivity|]. cbn. split; [discriminate|congruence].
